@@ -1,6 +1,7 @@
 package props
 
 import (
+	"encoding/json"
 	"fmt"
 	banktypes "github.com/cosmos/cosmos-sdk/x/bank/types"
 	"strings"
@@ -49,6 +50,7 @@ type Env struct {
 	Halted   string // non-empty once a block phase panicked
 	Trace    []string
 	Last     *lab.Obs
+	LastQ    *lab.Obs // the observation of the committed state made straight after the last Commit
 	NTx      int
 	BlockTxs [][]byte // raw txs delivered in the current block
 	// SpendableAtNewTime: every lab account's spendable coins on the pre-BeginBlock state but
@@ -60,7 +62,7 @@ type Env struct {
 	Blocks []RecBlock
 	cur    *RecBlock
 
-	nImports int
+	nImports     int
 	forceMidRead bool
 	// MidBlockReadPct: share of blocks in which the committed state is read (all getters, all query
 	// endpoints) between EndBlock and Commit
@@ -180,6 +182,12 @@ func (e *Env) DeliverRaw(tx *TxPlan, bz []byte) abci.ResponseDeliverTx {
 		lg = lg[:110]
 	}
 	e.tracef("  tx %s -> code=%d %s", tx.Desc, resp.Code, lg)
+	if resp.Code == 0 { // which kinds of operation the history really got through (top level only)
+		for _, m := range tx.Spec.Msgs {
+			u := sdk.MsgTypeURL(m)
+			e.C.Count("ok_"+u[strings.LastIndex(u, ".")+1:], 1)
+		}
+	}
 	post := e.L.Observe(e.L.Ctx())
 	if e.Snap {
 		e.PostSnap = e.L.SnapshotStores(e.L.Ctx(), lab.StoreNames)
@@ -206,15 +214,9 @@ func (e *Env) EndBlock() []byte {
 		e.tracef("h=%d HALT %s", e.L.Height, e.Halted)
 		return nil
 	}
-	post := e.L.Observe(e.L.Ctx())
-	for _, m := range e.Monitors {
-		if m.AfterEnd != nil {
-			m.AfterEnd(e, pre, post, er)
-		}
-	}
 	// A node serves client queries from the last COMMITTED state while the next block is being
 	// executed. In a share of the blocks the whole read surface is exercised at exactly that moment
-	// (after EndBlock, before Commit): every keeper getter through Observe on the committed-state
+	// (straight after EndBlock - before anything else reads the new state - and before Commit): every keeper getter through Observe on the committed-state
 	// context - which must still show the previous boundary - and every query endpoint through
 	// app.Query. Reads must not leave anything behind that changes later answers or results.
 	if force := e.forceMidRead; (e.MidBlockReadPct > 0 && e.R.Chance(e.MidBlockReadPct)) || force {
@@ -226,14 +228,23 @@ func (e *Env) EndBlock() []byte {
 				}
 			}()
 			mid := e.L.Observe(e.L.QueryCtx())
-			if pre != nil && mid.Height == pre.Height && (mid.NextPO != pre.NextPO || mid.NextWrk != pre.NextWrk || mid.NextBeacon != pre.NextBeacon || len(mid.Streams) != len(pre.Streams) || len(mid.Whitelist) != len(pre.Whitelist) || !mid.TotalLocked.IsEqual(pre.TotalLocked) || mid.EntParams.String() != pre.EntParams.String()) {
-				e.C.Violate("committed-state-read-not-isolated", "mid-block", "a read of the committed state (height %d) while block %d was executing does not show the state of the last boundary: next ids %d/%d/%d vs %d/%d/%d, streams %d vs %d, whitelist %d vs %d, total locked %s vs %s", mid.Height, e.L.Height, mid.NextPO, mid.NextWrk, mid.NextBeacon, pre.NextPO, pre.NextWrk, pre.NextBeacon, len(mid.Streams), len(pre.Streams), len(mid.Whitelist), len(pre.Whitelist), mid.TotalLocked, pre.TotalLocked)
+			if ref := e.LastQ; ref != nil && mid.Height == ref.Height {
+				e.C.Count("mid_block_reads_compared", 1)
+				if a, b := obsDigest(mid), obsDigest(ref); a != b {
+					e.C.Violate("committed-state-read-not-isolated", "mid-block", "a read of the committed state (height %d) while block %d was executing does not show what the same read showed straight after the last Commit: %s", mid.Height, e.L.Height, firstDiff(b, a))
+				}
 			}
 			for _, q := range c20Queries(e.L) {
 				e.L.App.Query(abci.RequestQuery{Path: q.path, Data: q.data})
 			}
 			e.C.Count("mid_block_read_sweeps", 1)
 		}()
+	}
+	post := e.L.Observe(e.L.Ctx())
+	for _, m := range e.Monitors {
+		if m.AfterEnd != nil {
+			m.AfterEnd(e, pre, post, er)
+		}
 	}
 	var hash []byte
 	protect("Commit", &e.Halted, func() { hash = e.L.Commit() })
@@ -259,7 +270,42 @@ func (e *Env) EndBlock() []byte {
 		}
 	}
 	e.Last = q
+	e.LastQ = q
 	return hash
+}
+
+// obsDigest: everything an observation holds except the context's own height / time and the
+// reported-vs-stored note (canonical JSON; maps are written in key order).
+func obsDigest(o *lab.Obs) string {
+	c := *o
+	c.Height, c.Time, c.ParamsMismatch = 0, 0, nil
+	bz, err := json.Marshal(c)
+	if err != nil {
+		return "unencodable: " + err.Error()
+	}
+	return string(bz)
+}
+
+// firstDiff shows the surroundings of the first byte at which two digests differ.
+func firstDiff(want, got string) string {
+	i := 0
+	for i < len(want) && i < len(got) && want[i] == got[i] {
+		i++
+	}
+	cut := func(s string) string {
+		lo, hi := i-80, i+80
+		if lo < 0 {
+			lo = 0
+		}
+		if hi > len(s) {
+			hi = len(s)
+		}
+		if lo > len(s) {
+			lo = len(s)
+		}
+		return s[lo:hi]
+	}
+	return fmt.Sprintf("after the Commit ...%s... | mid-block ...%s...", cut(want), cut(got))
 }
 
 // Block runs one block with the given transactions.
